@@ -28,6 +28,10 @@ type sizeCase struct {
 	Extra int    `json:"extra_cap,omitempty"`
 	Fill  byte   `json:"fill,omitempty"`
 	N     int64  `json:"n,omitempty"`
+	// Content, when set, is the entropy itself (Len and Fill are ignored): text-like bytes (a hex
+	// or base64 string the caller forgot to decode), entropies of extreme sentences, ...
+	Content hexb   `json:"content,omitempty"`
+	Shape   string `json:"shape,omitempty"`
 }
 
 // countingReader delivers a fixed byte pattern and counts how it was used.
@@ -56,7 +60,9 @@ var c09Check = register("C09", "c09.size", func(c *sizeCase) error {
 	switch c.Op {
 	case "entropy":
 		var e []byte
-		if !c.Nil {
+		if c.Content != nil {
+			e = append(make([]byte, 0, len(c.Content)+c.Extra), c.Content...)
+		} else if !c.Nil {
 			e = make([]byte, c.Len, c.Len+c.Extra)
 			for i := range e {
 				e[i] = c.Fill + byte(i)*c.Fill
@@ -131,13 +137,17 @@ var c09Check = register("C09", "c09.size", func(c *sizeCase) error {
 	return nil
 })
 
-const c09Rule = "C09: NewMnemonicByEntropy on nil and on every slice length of a contiguous range from 0 (content patterns, spare capacity) and a few huge lengths; NewMnemonic on every int of a contiguous range around zero, multiples of 3 outside 12..24, the extremes of int, rapid Int draws \u2014 each under supported and unsupported languages, under a counting source installed through the verif hook. Oracle: success iff the size is one of the five, otherwise (\"\", sentinel) and zero Read calls. Non-trivial: a size other than the six lengths / six counts the suite samples (1,16,17,33 bytes; 1,12,13,25 words); distinct by (op, size, language)"
+const c09Rule = "C09: NewMnemonicByEntropy on nil and on every slice length of a contiguous range from 0 (content patterns, spare capacity) and a few huge lengths, on text-like contents (hex in both cases, decimal, base64, one repeated character) of every length 0..130 under all ten languages, on the entropies of every language's longest and shortest sentences; NewMnemonic on every int of a contiguous range around zero, multiples of 3 outside 12..24, the extremes of int, rapid Int draws \u2014 each under supported and unsupported languages, under a counting source installed through the verif hook. Oracle: success iff the size is one of the five, otherwise (\"\", sentinel) and zero Read calls. Non-trivial: a size other than the six lengths / six counts the suite samples (1,16,17,33 bytes; 1,12,13,25 words); distinct by (op, size, language)"
 
 func c09Record(c *sizeCase) {
 	cov.Eval(1)
 	cov.Class("op=" + c.Op)
 	var size int64
 	if c.Op == "entropy" {
+		if c.Content != nil {
+			c.Len = len(c.Content)
+			cov.Class("content=" + c.Shape)
+		}
 		size = int64(c.Len)
 		if c.Nil {
 			cov.Class("nil-slice")
@@ -145,6 +155,10 @@ func c09Record(c *sizeCase) {
 		}
 		if ref.ValidSize(c.Len) && !c.Nil {
 			cov.Class("accepted-size")
+		}
+		if c.Content != nil {
+			cov.NonTrivial("size-content", c.Content, []byte(fmt.Sprint(c.Lang)))
+			return
 		}
 		if c.Len == 1 || c.Len == 16 || c.Len == 17 || c.Len == 33 {
 			return
@@ -190,6 +204,23 @@ func TestC09_Range(t *testing.T) {
 		run(&sizeCase{Op: "entropy", Len: n, Lang: l, Fill: byte(n), Extra: n % 5})
 	}
 	cov.Exhaustive(fmt.Sprintf("every entropy length 0..%d", maxLen))
+	// content that a size gate must not care about: for every length 0..130 text-like fillings
+	// (hex digits in both cases, decimal digits, base64, one repeated character), under all ten
+	// languages in turn; and for every language the entropies of its longest and shortest sentences
+	for n := 0; n <= 130; n++ {
+		for ai, alpha := range []string{"0123456789abcdef", "0123456789ABCDEF", "0123456789", "abcdefghijklmnopqrstuvwxyzABCDEFGHIJKLMNOPQRSTUVWXYZ0123456789+/", "a", "F", "0", "=", " "} {
+			e := make([]byte, n)
+			for i := range e {
+				e[i] = alpha[(i*7+n+ai)%len(alpha)]
+			}
+			run(&sizeCase{Op: "entropy", Content: e, Lang: int64(implLang[ref.Lang((n+ai)%int(ref.NumLangs))]), Shape: "text-like", Extra: n % 2 * 16})
+		}
+	}
+	for _, l := range allLangs() {
+		for _, e := range extremeEntropies(l) {
+			run(&sizeCase{Op: "entropy", Content: e, Lang: int64(implLang[l]), Shape: "extreme-sentence"})
+		}
+	}
 	for _, n := range []int{1 << 20, 1<<20 + 16, 1 << 24} {
 		run(&sizeCase{Op: "entropy", Len: n, Lang: int64(bip39.English)})
 	}
@@ -241,7 +272,18 @@ var c09RandomPropK int
 func c09RandomProp(rt *rapid.T) {
 	var c *sizeCase
 	lang := rapid.OneOf(rapid.Int64Range(-2, 11), rapid.Int64()).Draw(rt, "lang")
-	if rapid.Bool().Draw(rt, "entropy") {
+	if which := rapid.IntRange(0, 3).Draw(rt, "entropy"); which == 3 {
+		// content-bearing entropies: text-like bytes of any length, structured valid entropies
+		sl := int64(implLang[gen.Lang().Draw(rt, "supported-lang")])
+		if rapid.Bool().Draw(rt, "text-like") {
+			n := rapid.OneOf(rapid.SampledFrom([]int{32, 40, 48, 56, 64, 24, 44, 88}), rapid.IntRange(0, 130)).Draw(rt, "text-len")
+			c = &sizeCase{Op: "entropy", Lang: sl, Content: gen.TextBytes(n).Draw(rt, "text"), Shape: "text-like"}
+		} else {
+			e := gen.Entropy().Draw(rt, "valid-entropy")
+			c = &sizeCase{Op: "entropy", Lang: sl, Content: e.Bytes, Shape: e.Shape}
+		}
+		c.Extra = rapid.SampledFrom([]int{0, 0, 1, 64}).Draw(rt, "extra")
+	} else if which >= 1 {
 		c = &sizeCase{Op: "entropy", Lang: lang,
 			Len:   rapid.OneOf(rapid.IntRange(0, 70), rapid.IntRange(0, 1<<16), gen.Size()).Draw(rt, "len"),
 			Extra: rapid.IntRange(0, 64).Draw(rt, "extra"),
@@ -258,7 +300,7 @@ func c09RandomProp(rt *rapid.T) {
 	if c09RandomPropK++; c09RandomPropK%999 == 1 {
 		cov.Sample("c09.size", c)
 	}
-	judge(rt, "c09.size", c09Check, c)
+	judgeH(rt, "c09.size", c09Check, c, gen.Lang().Draw(rt, "history-around"))
 }
 
 // FuzzC09 drives the same property coverage-guided (thorough tier): the fuzzer's bytes are
